@@ -2,6 +2,7 @@ package props
 
 import (
 	"fmt"
+	"go/constant"
 	"go/token"
 	"go/types"
 	"strings"
@@ -79,11 +80,13 @@ func runC05(p *core.Prog, r *core.Report) {
 
 	mux := p.Named("httpd", "Mux")
 	store := p.Named("httpd", "Store")
-	serve := p.Method("httpd", "Mux", "ServeHTTP")
-	if mux == nil || store == nil || serve == nil {
+	serveSrc := p.Method("httpd", "Mux", "ServeHTTP")
+	if mux == nil || store == nil || serveSrc == nil {
 		r.Fail("C05-R1", "anchors Mux/Store/ServeHTTP", "-", "not found")
 		return
 	}
+	// the inlined view: acquire/release/reset helpers of the package are seen in place
+	serve := p.Inl(serveSrc)
 	// Get / Put / relay call in ServeHTTP
 	var get, put, relay ssa.Instruction
 	var deferredPut []ssa.Instruction
@@ -102,8 +105,23 @@ func runC05(p *core.Prog, r *core.Report) {
 				put = in
 			}
 		}
-		if !c.Common().IsInvoke() && sx.StaticCallee(c) == nil && sx.Origins(c.Common().Value)["field:Mux.relayHandler"] {
-			relay = in
+		// the relay call: a dynamic call of a function value held in a Mux field, passing the Store
+		if _, isB := c.Common().Value.(*ssa.Builtin); !isB && !c.Common().IsInvoke() && sx.StaticCallee(c) == nil {
+			fromMux := false
+			for o := range sx.Origins(c.Common().Value) {
+				if strings.HasPrefix(o, "field:Mux.") {
+					fromMux = true
+				}
+			}
+			passesStore := false
+			for _, a := range c.Common().Args {
+				if types.Identical(ptrTo(a.Type()), store) {
+					passesStore = true
+				}
+			}
+			if fromMux && passesStore {
+				relay = in
+			}
 		}
 	})
 	// Put inside deferred closures
@@ -161,14 +179,86 @@ func runC05(p *core.Prog, r *core.Report) {
 			}
 		}
 	}
-	allFns := p.ModuleFuncs()
+	// every function of the module; the httpd package through its inlined views (a helper's writes belong to its callers)
+	var allFns []*ssa.Function
+	for _, fn := range p.ModuleFuncs() {
+		if rootFn(fn).Pkg != p.SPkgs["httpd"] {
+			allFns = append(allFns, fn)
+		}
+	}
+	for _, v := range pkgViews(p, "httpd") {
+		allFns = append(allFns, sx.WithClosures(v.Fn)...)
+	}
+	// whole-struct stores into the pooled object graph (`*store.W = ResponseWriter{}`): a write of every field
+	type wholeStore struct {
+		st    *ssa.Store
+		owner *types.Named
+		vals  map[*types.Var]ssa.Value // field → value (absent = zero value)
+		zero  ssa.Value
+	}
+	var wholes []wholeStore
+	sx.Instrs(serve, func(in ssa.Instruction) {
+		st, ok := in.(*ssa.Store)
+		if !ok {
+			return
+		}
+		if _, isLocal := st.Addr.(*ssa.Alloc); isLocal {
+			return
+		}
+		n, ok := ptrTo(st.Addr.Type()).(*types.Named)
+		if !ok {
+			return
+		}
+		stt, ok := n.Underlying().(*types.Struct)
+		if !ok || n.Obj().Pkg() == nil || !strings.HasPrefix(n.Obj().Pkg().Path(), core.ModPath) {
+			return
+		}
+		w := wholeStore{st: st, owner: n, vals: map[*types.Var]ssa.Value{}}
+		switch v := st.Val.(type) {
+		case *ssa.Const:
+			if v.Value != nil {
+				return
+			}
+		case *ssa.UnOp:
+			a, isA := v.X.(*ssa.Alloc)
+			if v.Op != token.MUL || !isA {
+				return // a copy of another object: not followed
+			}
+			for _, u := range *a.Referrers() {
+				if fa, ok := u.(*ssa.FieldAddr); ok {
+					for _, uu := range *fa.Referrers() {
+						if fs, ok := uu.(*ssa.Store); ok && fs.Addr == ssa.Value(fa) {
+							w.vals[stt.Field(fa.Field)] = fs.Val
+						}
+					}
+				}
+			}
+		default:
+			return
+		}
+		wholes = append(wholes, w)
+	})
+	c05InitImmutable(p, allFns)
+	type fieldWrite struct {
+		st  *ssa.Store
+		val ssa.Value
+	}
 	for _, cf := range fields {
 		// written outside the constructor?
 		var writers []string
-		var serveStores []*ssa.Store
+		var serveStores []fieldWrite
+		for _, w := range wholes {
+			if w.owner == cf.owner {
+				v, ok := w.vals[cf.f]
+				if !ok {
+					v = zeroConst(cf.f.Type())
+				}
+				serveStores = append(serveStores, fieldWrite{w.st, v})
+			}
+		}
 		for _, ref := range sx.FieldRefs(allFns, cf.f) {
 			fa, ok := ref.Instr.(*ssa.FieldAddr)
-			if !ok || rootFn(ref.Fn) == rootFn(ctor) && sx.IsFreshObject(ref.Base) {
+			if !ok || rootFn(sx.SourceFunc(ref.Instr)) == rootFn(ctor) && sx.IsFreshObject(ref.Base) {
 				continue
 			}
 			if sx.IsFreshObject(ref.Base) {
@@ -178,7 +268,7 @@ func runC05(p *core.Prog, r *core.Report) {
 				if a.Kind == "write" {
 					writers = append(writers, fnName(ref.Fn))
 					if ref.Fn == serve {
-						serveStores = append(serveStores, a.Instr.(*ssa.Store))
+						serveStores = append(serveStores, fieldWrite{a.Instr.(*ssa.Store), a.Val})
 					}
 				}
 				if a.Kind == "elem-write" {
@@ -186,26 +276,46 @@ func runC05(p *core.Prog, r *core.Report) {
 				}
 			}
 		}
-		if len(writers) == 0 {
+		if len(writers) == 0 && len(serveStores) == 0 {
 			continue // structural / immutable field
+		}
+		if len(writers) == 0 {
+			// only rewritten wholesale by the reset: nothing writes it while a request is served, the reset is harmless
+			continue
 		}
 		c := "Store." + cf.path
 		// (a) assigned before the relay call on every path, independent of the old value
 		pre := sx.Cut{Instrs: map[ssa.Instruction]bool{}}
 		post := sx.Cut{Instrs: map[ssa.Instruction]bool{}}
 		var resetVals []ssa.Value
-		for _, st := range serveStores {
-			indep := !derivesFromField(st.Val, cf.owner.Obj().Name(), cf.f)
+		for _, fw := range serveStores {
+			st := fw.st
+			indep := !derivesFromField(fw.val, cf.owner.Obj().Name(), cf.f)
 			trunc := false
-			if sl, ok := st.Val.(*ssa.Slice); ok && derivesFromField(sl.X, cf.owner.Obj().Name(), cf.f) {
+			if sl, ok := fw.val.(*ssa.Slice); ok && derivesFromField(sl.X, cf.owner.Obj().Name(), cf.f) {
 				if _, isC := sx.ConstInt(sl.High); isC && sl.Low == nil {
 					trunc = true
+				} else if _, isSym := symLen(sl.High); isSym && sl.Low == nil && sl.High != nil {
+					trunc = true // truncation to the length of an immutable field
 				}
 			}
 			if indep || trunc {
 				pre.Instrs[st] = true
 				post.Instrs[st] = true
-				resetVals = append(resetVals, st.Val)
+				// what is compared with the constructor is what a store after the relay call installs
+				if sx.ReachInstr(serve, relay, st, sx.Cut{}) {
+					// …unless a later store of the same field overwrites it on every path to Put (a struct literal
+					// assigned in place first zeroes the field, then stores the listed value)
+					over := sx.Cut{Instrs: map[ssa.Instruction]bool{}}
+					for _, o := range serveStores {
+						if o.st != st && sx.ReachInstr(serve, st, o.st, sx.Cut{}) {
+							over.Instrs[o.st] = true
+						}
+					}
+					if len(over.Instrs) == 0 || !sx.MustPass(serve, st, put, over) {
+						resetVals = append(resetVals, fw.val)
+					}
+				}
 			}
 		}
 		okPre := len(pre.Instrs) > 0 && sx.MustPass(serve, get, relay, pre)
@@ -371,7 +481,7 @@ func runC05(p *core.Prog, r *core.Report) {
 			}
 			for _, a := range sx.Accesses(fa) {
 				if a.Kind == "write" || a.Kind == "elem-write" {
-					okW := ref.Fn == serve || rootFn(ref.Fn) == rootFn(ctor)
+					okW := ref.Fn == serve || rootFn(sx.SourceFunc(a.Instr)) == rootFn(ctor)
 					r.Check(okW, "C05-R5", "Store."+idf.Name()+" "+a.Kind+" in "+fnName(ref.Fn), p.Pos(a.Instr.Pos()), "ServeHTTP / constructor only: the ID is constant while handlers run", "the ID buffer is modified outside ServeHTTP: GetID() aliases it, the ID would change during the request")
 				}
 			}
@@ -379,9 +489,162 @@ func runC05(p *core.Prog, r *core.Report) {
 	}
 }
 
-// freshSlice: v is a slice made in place (make with dynamic or constant size); returns its length if constant.
-func freshSlice(v ssa.Value) (fn *ssa.Function, length int64, constLen bool, ok bool) {
+func zeroConst(t types.Type) ssa.Value {
+	switch u := t.Underlying().(type) {
+	case *types.Basic:
+		switch {
+		case u.Info()&types.IsString != 0:
+			return ssa.NewConst(constant.MakeString(""), t)
+		case u.Info()&types.IsBoolean != 0:
+			return ssa.NewConst(constant.MakeBool(false), t)
+		case u.Info()&types.IsNumeric != 0:
+			return ssa.NewConst(constant.MakeInt64(0), t)
+		}
+	}
+	return ssa.NewConst(nil, t)
+}
+
+// constLen: the length of a slice value when it is a constant of the program text.
+func constLen(v ssa.Value) (int64, bool) {
 	switch x := sx.Unspill(orNil(v)).(type) {
+	case *ssa.MakeSlice:
+		return sx.ConstInt(x.Len)
+	case *ssa.Const:
+		if x.Value == nil {
+			return 0, true
+		}
+		if x.Value.Kind() == constant.String {
+			return int64(len(constant.StringVal(x.Value))), true
+		}
+	case *ssa.Slice:
+		lo := int64(0)
+		if x.Low != nil {
+			k, ok := sx.ConstInt(x.Low)
+			if !ok {
+				return 0, false
+			}
+			lo = k
+		}
+		if x.High != nil {
+			k, ok := sx.ConstInt(x.High)
+			return k - lo, ok
+		}
+		if pt, ok := x.X.Type().Underlying().(*types.Pointer); ok {
+			if at, ok := pt.Elem().Underlying().(*types.Array); ok {
+				return at.Len() - lo, true
+			}
+		}
+	case *ssa.Call:
+		if b, ok := x.Call.Value.(*ssa.Builtin); ok && b.Name() == "append" && len(x.Call.Args) == 2 {
+			a, ok1 := constLen(x.Call.Args[0])
+			c, ok2 := constLen(x.Call.Args[1])
+			return a + c, ok1 && ok2
+		}
+	}
+	return 0, false
+}
+
+// c05InitImmutable installs the immutability oracle used by symLen.
+func c05InitImmutable(p *core.Prog, allFns []*ssa.Function) {
+	c05Immutable = func(o string) bool {
+		parts := strings.SplitN(strings.TrimPrefix(o, "field:"), ".", 2)
+		owner := p.Named("httpd", parts[0])
+		if owner == nil || len(parts) != 2 {
+			return false
+		}
+		f := fieldByName(owner, parts[1])
+		if f == nil {
+			return false
+		}
+		for _, ref := range sx.FieldRefs(allFns, f) {
+			fa, ok := ref.Instr.(*ssa.FieldAddr)
+			if !ok || sx.IsFreshObject(ref.Base) {
+				continue
+			}
+			for _, a := range sx.Accesses(fa) {
+				if a.Kind != "read" {
+					return false
+				}
+			}
+		}
+		return true
+	}
+}
+
+// poolCtor: the function that returns a fresh *Store as `any` (the value of storePool.New).
+func poolCtor(p *core.Prog) *ssa.Function {
+	store := p.Named("httpd", "Store")
+	var ctor *ssa.Function
+	for _, fn := range p.PkgFuncs("httpd") {
+		for _, ret := range sx.Returns(fn) {
+			if len(ret.Results) == 1 {
+				if mi, ok := ret.Results[0].(*ssa.MakeInterface); ok {
+					if a, ok := sx.Unspill(mi.X).(*ssa.Alloc); ok && types.Identical(ptrTo(a.Type()), store) {
+						ctor = fn
+					}
+				}
+			}
+		}
+	}
+	return ctor
+}
+
+// immutableFields (set by runC05): fields that are only written while their object is unpublished.
+var c05Immutable func(o string) bool
+
+// symLen: the length of a slice value as an expression of the program text: a constant ("9") or the length of
+// a field that never changes after construction ("len(field:Mux.idPrefix)").
+func symLen(v ssa.Value) (string, bool) {
+	if k, ok := constLen(v); ok {
+		return fmt.Sprint(k), true
+	}
+	switch x := sx.Unspill(orNil(v)).(type) {
+	case *ssa.Call:
+		if b, ok := x.Call.Value.(*ssa.Builtin); ok && len(x.Call.Args) >= 1 {
+			switch b.Name() {
+			case "len":
+				return symLen(x.Call.Args[0])
+			case "append":
+				if len(x.Call.Args) == 2 {
+					if a, ok := constLen(x.Call.Args[0]); ok && a == 0 {
+						return symLen(x.Call.Args[1])
+					}
+				}
+			}
+		}
+	case *ssa.Slice:
+		if x.Low == nil && x.High == nil {
+			if _, isSlice := x.X.Type().Underlying().(*types.Slice); isSlice {
+				return symLen(x.X)
+			}
+		}
+		if x.Low == nil && x.High != nil {
+			return symLen(x.High)
+		}
+	case *ssa.UnOp:
+		if x.Op == token.MUL {
+			if fa, ok := x.X.(*ssa.FieldAddr); ok {
+				o := "field:" + sx.OwnerName(fa.X.Type()) + "." + sx.FieldOf(fa).Name()
+				if c05Immutable != nil && c05Immutable(o) {
+					return "len(" + o + ")", true
+				}
+			}
+		}
+	}
+	return "", false
+}
+
+// freshSlice: v is a slice made in place (make with dynamic or constant size); returns its length if constant.
+func freshSlice(v ssa.Value) (fn *ssa.Function, length int64, isConstLen bool, ok bool) {
+	switch x := sx.Unspill(orNil(v)).(type) {
+	case *ssa.Call:
+		// append(make([]T, 0, c), src...): the result is backed by the array made here (or a newer one)
+		if b, ok := x.Call.Value.(*ssa.Builtin); ok && b.Name() == "append" && len(x.Call.Args) == 2 {
+			if fn, _, _, ok := freshSlice(x.Call.Args[0]); ok {
+				n, isC := constLen(x)
+				return fn, n, isC, true
+			}
+		}
 	case *ssa.MakeSlice:
 		n, isC := sx.ConstInt(x.Len)
 		return x.Parent(), n, isC, true
@@ -444,6 +707,14 @@ func ctorFieldValue(ctor *ssa.Function, cf c05field) ssa.Value {
 
 func resetMatchesCtor(reset, ctorVal ssa.Value) (bool, string) {
 	if sl, ok := reset.(*ssa.Slice); ok {
+		if _, isC := sx.ConstInt(sl.High); !isC {
+			rl, ok1 := symLen(sl.High)
+			cl, ok2 := symLen(ctorVal)
+			if ok1 && ok2 && rl == cl {
+				return true, "reset truncates to " + rl + ", constructor installs a buffer of that length"
+			}
+			return false, "reset truncates to " + sx.ValPath(sl.High) + ", constructor installs " + valStr(ctorVal) + ": the lengths cannot be shown equal"
+		}
 		k, _ := sx.ConstInt(sl.High)
 		// constructor must install a slice of the same length
 		if _, n, isC, ok := freshSlice(ctorVal); ok {
